@@ -181,6 +181,19 @@ Theorem C18_dict_history_str_tuple_keys : forall (V : Type) (embV : V -> value) 
       map (emb_dobs V embV) (snd (d_run (string * string) V ss_eqb ops m))).
 Proof. exact dict_history_str_tuple_keys. Qed.
 
+(* a nested tuple key type, (int, (int, int)) *)
+Theorem C18_dict_history_nested_tuple_keys : forall (V : Type) (embV : V -> value) ops m,
+  rt_drun (Z * (Z * Z)) V emb_znn embV ops (rep_dict (Z * (Z * Z)) V emb_znn embV m) =
+  Ok (rep_dict (Z * (Z * Z)) V emb_znn embV (fst (d_run (Z * (Z * Z)) V znn_eqb ops m)),
+      map (emb_dobs V embV) (snd (d_run (Z * (Z * Z)) V znn_eqb ops m))).
+Proof. exact dict_history_nested_tuple_keys. Qed.
+
+Theorem C18_set_history_nested_tuple_keys : forall ops s,
+  rt_srun (Z * (Z * Z)) emb_znn ops (rep_set (Z * (Z * Z)) emb_znn s) =
+  Ok (rep_set (Z * (Z * Z)) emb_znn (fst (s_run (Z * (Z * Z)) znn_eqb ops s)),
+      map emb_sobs (snd (s_run (Z * (Z * Z)) znn_eqb ops s))).
+Proof. exact set_history_nested_tuple_keys. Qed.
+
 Theorem C18_set_history_str_keys : forall ops s,
   rt_srun string VStr ops (rep_set string VStr s) =
   Ok (rep_set string VStr (fst (s_run string String.eqb ops s)), map emb_sobs (snd (s_run string String.eqb ops s))).
@@ -294,6 +307,8 @@ Print Assumptions C18_dict_history_str_keys.
 Print Assumptions C18_dict_history_int_keys.
 Print Assumptions C18_dict_history_int_tuple_keys.
 Print Assumptions C18_dict_history_str_tuple_keys.
+Print Assumptions C18_dict_history_nested_tuple_keys.
+Print Assumptions C18_set_history_nested_tuple_keys.
 Print Assumptions C18_set_history_str_keys.
 Print Assumptions C18_set_history_int_keys.
 Print Assumptions C18_set_history_int_tuple_keys.
